@@ -1275,16 +1275,21 @@ func (sed *shardEventDelegate) NotifyLeave(node *memberlist.Node) {
 		sed.manager.remoteNodeStatesMu.Unlock()
 	}
 
-	// If we're now isolated and have join addresses configured, restart join loop
+	// If we're now isolated and have join addresses configured, restart join loop.
+	// memberlist invokes this callback while holding its node lock, and NumMembers takes that lock,
+	// so the check runs on its own goroutine.
 	if sed.manager != nil && sed.manager.ml != nil && sed.manager.memberlistConfig != nil {
-		sed.manager.mlMutex.RLock()
-		numMembers := sed.manager.ml.NumMembers()
-		sed.manager.mlMutex.RUnlock()
-		if numMembers == 1 && len(sed.manager.memberlistConfig.JoinAddrs) > 0 {
-			sed.logger.Info("Node is now isolated, restarting join loop",
-				tag.NewStringTag("numMembers", strconv.Itoa(numMembers)))
-			sed.manager.startJoinLoop()
-		}
+		manager, ml := sed.manager, sed.manager.ml
+		go func() {
+			manager.mlMutex.RLock()
+			numMembers := ml.NumMembers()
+			manager.mlMutex.RUnlock()
+			if numMembers == 1 && len(manager.memberlistConfig.JoinAddrs) > 0 {
+				sed.logger.Info("Node is now isolated, restarting join loop",
+					tag.NewStringTag("numMembers", strconv.Itoa(numMembers)))
+				manager.startJoinLoop()
+			}
+		}()
 	}
 }
 
